@@ -603,6 +603,94 @@ def r6(k: Kit) -> None:
                       'below the window',
                       k.loc(fi, dn), g.describe_path(w) if w else None)
     rep.floor('C08.R6', 'receive-buffer consumers', sites, 5)
+    # whoever empties a per-datatype receive buffer (not just the read
+    # methods) gives the bytes back to the pause accounting
+    emptiers = 0
+    for fi in idx.iter_funcs(['stream', 'process']):
+        if fi.name in ('connection_made', '__init__'):
+            continue
+        rm = []
+        for x in ast.walk(fi.node):
+            if isinstance(x, ast.Assign):
+                for t in x.targets:
+                    for e in (t.elts if isinstance(t, ast.Tuple) else [t]):
+                        if isinstance(e, ast.Subscript) and \
+                                dotted(e.value) == 'self._recv_buf':
+                            rm.append(x)
+            elif isinstance(x, ast.Call) and \
+                    isinstance(x.func, ast.Attribute) and \
+                    x.func.attr in ('clear', 'pop') and \
+                    isinstance(x.func.value, ast.Subscript) and \
+                    dotted(x.func.value.value) == 'self._recv_buf':
+                rm.append(x)
+        if not rm:
+            continue
+        g = k.cfg(fi)
+        decs = [g.node_for(d).id for d in ast.walk(fi.node)
+                if isinstance(d, ast.AugAssign) and isinstance(d.op, ast.Sub)
+                and dotted(d.target) == 'self._recv_buf_len'
+                and g.node_for(d) is not None]
+        res = [nd.id for nd, c in k.calls_named(fi, '_maybe_resume_reading')]
+        for x in rm:
+            nd = g.node_for(x)
+            if nd is None:
+                continue
+            emptiers += 1
+            w = g.path(nd.id, g.exit, blocked_nodes=res, follow_exc=False)
+            rep.check(bool(decs) and w is None, 'C08.R6',
+                      key(fi, 'emptied buffer returned to the accounting'),
+                      'the bytes taken out are subtracted from _recv_buf_len '
+                      'and the resume test runs before the function returns',
+                      f'{fi.qual} empties a receive buffer without '
+                      + ('subtracting from _recv_buf_len' if not decs else
+                         'calling _maybe_resume_reading') +
+                      ': the stream stays paused with an empty buffer, no '
+                      'WINDOW_ADJUST is ever sent again and the transfer '
+                      'stalls', k.loc(fi, nd))
+    rep.floor('C08.R6', 'functions emptying a receive buffer', emptiers, 2)
+
+
+def r2_overrides(k: Kit) -> None:
+    """Subclass overrides of _accept_data keep the window accounting."""
+    from ..flow import PARAM
+    rep = k.rep
+    idx = k.idx
+    base = idx.cls('channel.SSHChannel')
+    n = 0
+    for c in idx.all_subclasses(base):
+        fi = c.methods.get('_accept_data')
+        if fi is None:
+            continue
+        g = k.cfg(fi)
+        rd = k.rd(fi)
+        for nd, call in k.calls_named(fi, '_accept_data'):
+            if not call.args:
+                continue
+            n += 1
+            var = dotted(call.args[0])
+            defs = rd.defs_of(nd.id, var) if var else [0]
+            changed = [d for d in defs if d != PARAM]
+            comp = [x.id for x in g.nodes if x.kind == 'stmt' and
+                    isinstance(x.ast, ast.AugAssign) and
+                    isinstance(x.ast.op, ast.Sub) and
+                    dotted(x.ast.target) == 'self._recv_window']
+            bad = None
+            for d in changed:
+                # every path entry -> redefinition -> call charges the rest
+                if g.path(d, nd.id, blocked_nodes=comp) is not None and \
+                        g.path(g.entry, d, blocked_nodes=comp) is not None:
+                    bad = d
+            rep.check(bad is None and var is not None, 'C08.R2',
+                      key(fi, 'override charges what the peer sent'),
+                      'the data handed to the base class is what arrived, '
+                      'or the bytes removed are charged to the window here',
+                      f'{fi.qual} shortens the data before '
+                      'super()._accept_data(), which charges len(data): the '
+                      'peer charged the full packet, so the two views of the '
+                      'window drift apart by the stripped bytes per packet '
+                      'until the sender stalls with the receiver still '
+                      'above its replenishment threshold', k.loc(fi, nd))
+    rep.floor('C08.R2', '_accept_data overrides', n, 1)
 
 
 def run(idx, rep, tier):
@@ -610,6 +698,7 @@ def run(idx, rep, tier):
     rep.assumptions += NOT_DECIDED
     r1(k)
     r2(k)
+    r2_overrides(k)
     r3(k)
     rep.rule('C08.R4', 'peer maximum packet size is tested > 0 as finally '
              'stored (same rule as C10.R1)')
